@@ -1,4 +1,86 @@
-(* C16 - placeholder while the proofs are being written; replaced by the real statements. *)
-From Spl Require Import Model.Completion.
-Theorem C16_placeholder : True. Proof. exact I. Qed.
-Print Assumptions C16_placeholder.
+(* C16 - completion proposals respect scope and syntactic position.
+   Statements only; every proof is `exact <lemma>` (Proofs/CompletionProofs.v).  The theorems are
+   about the model Model/Completion.v of lsp4spl/src/features/completion.rs and hold for ALL
+   documents (also malformed ones) and ALL cursor positions.
+
+   PROVED: whatever `propose` answers, (1) the proposed variables are none or exactly the entries of
+   the local table of the procedure ENTRY named like the declaration that contains the corrected
+   cursor position - in particular no name local to another procedure is ever proposed; (2) the
+   proposed procedures are none or exactly the procedure entries of the global table; (3) the
+   proposed types are none, `int`, or exactly the type entries of the global table; (4) outside
+   every declaration the answer is the declaration starters, with the main snippet iff `main` is
+   not a procedure of the table.
+   NOT proved (validated by correspondence + oracle only): WHICH of the alternatives is taken at
+   which syntactic position (the position classifier), that the local table of a procedure holds
+   exactly its parameters and variables, and freedom from panics ([C16_full_statement]). *)
+From Spl Require Import Model.Completion Proofs.CompletionProofs.
+
+Theorem C16_shape : forall d line col r,
+  propose d line col = ROk r -> shape_ok (consulted_table d line col) (d_table d) r.
+Proof. exact propose_shape. Qed.
+Print Assumptions C16_shape.
+
+Theorem C16_no_leak : forall d line col items it,
+  propose d line col = ROk (Some items) -> In it items -> it_kind it = kind_variable ->
+  exists pd off name p,
+    find_decl (d_toks d) (cursor_position d line col) (pg_decls (d_ast d)) = ROk (Some (GProc pd, off)) /\
+    pd_name pd = Some name /\ lookup (d_table d) (id_val name) = Some (GProcE p) /\
+    In it (search_variables (pe_local p)).
+Proof. exact propose_variables_local. Qed.
+Print Assumptions C16_no_leak.
+
+Theorem C16_toplevel : forall d line col r,
+  propose d line col = ROk r ->
+  find_decl (d_toks d) (cursor_position d line col) (pg_decls (d_ast d)) = ROk None ->
+  last_type_unfinished d = false ->
+  r = Some (new_global_declaration (d_table d)).
+Proof. exact propose_toplevel. Qed.
+Print Assumptions C16_toplevel.
+
+Theorem C16_main_snippet : forall g,
+  In snip_main (new_global_declaration g) <-> ~ exists p, lookup g s_main = Some (GProcE p).
+Proof. exact main_snippet_iff. Qed.
+Print Assumptions C16_main_snippet.
+
+Theorem C16_toplevel_only_starters : forall g,
+  filter is_var (new_global_declaration g) = [] /\ filter is_fun (new_global_declaration g) = [] /\
+  filter is_struct (new_global_declaration g) = [].
+Proof. exact toplevel_no_entries. Qed.
+Print Assumptions C16_toplevel_only_starters.
+
+(* ---- non-vacuity: `proc p(a: int) { var x: int; x := a; }` LF `proc main() { }` ---- *)
+Definition c16_text : text :=
+  [112; 114; 111; 99; 32; 112; 40; 97; 58; 32; 105; 110; 116; 41; 32; 123; 32; 118; 97; 114; 32; 120; 58; 32;
+   105; 110; 116; 59; 32; 120; 32; 58; 61; 32; 97; 59; 32; 125; 10;
+   112; 114; 111; 99; 32; 109; 97; 105; 110; 40; 41; 32; 123; 32; 125]%N.
+
+Definition c16_answer (line col : N) : option (list (text * N)) :=
+  match new_doc c16_text with
+  | Done d => match propose d line col with
+              | ROk (Some items) => Some (map (fun i => (it_label i, it_kind i)) items)
+              | _ => None
+              end
+  | _ => None
+  end.
+
+(* after `:= ` (0:34): exactly the parameter and the variable of p *)
+Example C16_example_vars : c16_answer 0 34 = Some [([97], 6); ([120], 6)]%N.
+Proof. vm_compute. reflexivity. Qed.
+
+(* statement start in p (0:29, in front of `x := a;`): var starters, statement starters, a, x, and all 12 procedures *)
+Example C16_example_stmt :
+  option_map (fun l => (length l, filter (fun x => (snd x =? 6)%N) l)) (c16_answer 0 29)
+  = Some (20%nat, [([97], 6); ([120], 6)])%N.
+Proof. vm_compute. reflexivity. Qed.
+
+(* in the body of main (1:14): no variable at all - the names a, x of p are not proposed *)
+Example C16_example_no_leak :
+  option_map (fun l => filter (fun x => (snd x =? 6)%N) l) (c16_answer 1 14) = Some [].
+Proof. vm_compute. reflexivity. Qed.
+
+(* end of the text behind a blank line would be top level; here 1:15 (behind `}` + nothing) is still
+   inside main; top level needs white space: use the line break between the declarations (0:38 is the
+   end of line 0, directly behind `}`; the position 1:0 has the line break in front of it) *)
+Example C16_example_toplevel :
+  c16_answer 1 0 = Some [([112; 114; 111; 99], 15); ([116; 121; 112; 101], 15); ([112; 114; 111; 99], 14); ([116; 121; 112; 101], 14)]%N.
+Proof. vm_compute. reflexivity. Qed.
